@@ -600,6 +600,60 @@ func runDirected1(d Directed, v *vt.V) {
 			}
 			w0.Cancel()
 		}
+	case "cancel-during-commit":
+		// a Cancel through a second handle that returns nil while a Commit is in flight is either before
+		// the commit (which then fails) or after it (the blob is there once the Cancel has returned)
+		mem := ocimem.New()
+		if _, err := mem.PushManifest(ctx, "other", "t", []byte(`{}`), "application/vnd.verif.opaque"); err != nil {
+			v.Failf("harness", "%v", err)
+			return
+		}
+		var stop atomic.Bool
+		var bg sync.WaitGroup
+		for g := 0; g < 8; g++ {
+			bg.Add(1)
+			go func() { // ordinary concurrent use of the registry
+				defer bg.Done()
+				for !stop.Load() {
+					mem.ResolveTag(ctx, "other", "t")
+				}
+			}()
+		}
+		defer bg.Wait()
+		defer stop.Store(true)
+		for i := 0; i < d.Iters*10; i++ {
+			content := append(bytes.Repeat([]byte("c"), max(d.Size, 1)), []byte(fmt.Sprint(i))...)
+			dg := digest.FromBytes(content)
+			wa, err := mem.PushBlobChunked(ctx, "foo", 0)
+			if err != nil {
+				v.Failf("harness", "%v", err)
+				return
+			}
+			wa.Write(content)
+			wb, err := mem.PushBlobChunkedResume(ctx, "foo", wa.ID(), -1, 0)
+			if err != nil {
+				v.Failf("harness", "%v", err)
+				return
+			}
+			started := make(chan struct{})
+			commitDone := make(chan error, 1)
+			go func() {
+				close(started)
+				_, err := wa.Commit(dg)
+				commitDone <- err
+			}()
+			<-started
+			for j := 0; j < i%64; j++ {
+				_ = digest.FromString("x") // vary the timing a little
+			}
+			cancelErr := wb.Cancel()
+			_, resolveErr := mem.ResolveBlob(ctx, "foo", dg) // issued after the Cancel has returned
+			commitErr := <-commitDone
+			if cancelErr == nil && commitErr == nil && resolveErr != nil {
+				v.Failf("commit-not-atomic", "%s, iteration %d: Commit(digest of %d bytes) succeeded, so the Cancel through a second handle, which returned nil while the commit was in flight, came after it; yet a ResolveBlob issued after that Cancel had returned answered %v", d.Family, i, len(content), resolveErr)
+				return
+			}
+		}
 	case "shared-handle-writes":
 		// several goroutines write through ONE handle that was opened at the right offset: in every
 		// sequential order each write is accepted (the handle's offset was right when it first wrote)
@@ -773,7 +827,7 @@ func init() {
 	propDirected = &vt.Prop[Directed]{
 		ID:   "C08",
 		Name: "DirectedRaces",
-		Rule: "directed workload families aimed at the registry's two-step operations, each a loop of racing goroutines under -race: tag-flip (a tag moved back and forth between two manifests, the old one deleted each time, while 4 readers GetTag: never missing, never foreign bytes), commit-vs-write / resume-vs-write (one goroutine commits digest(X) while another writes to the same session: a successful commit stores exactly X with the right size, a failed one stores nothing), commit-vs-cancel / commit-vs-wrong-commit / commit-vs-write-commit (every commit that reports success leaves exactly its content retrievable under its digest; nothing is ever stored under the empty digest), stale-write-vs-status / good-write-vs-wrong-offset (a handle opened at a stale offset is refused, one opened at the right offset is accepted, whatever offsets other handles on the same session are opened at meanwhile), first-resume-race (goroutines opening the same fresh upload id at once share one session: no acknowledged write is lost), same-offset-race (of several handles opened at the same offset and writing at once exactly one is accepted), shared-handle-writes (goroutines writing at once through one handle opened at the right offset are all accepted), write-during-commit (a Write that succeeds while a Commit is in flight either makes the commit fail or finds the committed blob in place once it has returned), interleaved-chunks (over HTTP: a chunk request is served while another one's body is half delivered - the requests must take effect one after the other), concurrent-listings (over HTTP: 8 clients list tags, repositories and referrers of a registry nobody writes to - every answer is the one the request gets when asked alone), stalled-push (a PushBlob - direct or as one HTTP request - whose content source stalls: operations on another repository complete meanwhile), reentrant-listing (a consumer resolves each tag while it iterates over Tags inside an iteration over Repositories, and another goroutine pushes between two items: nothing waits for the iteration); distinct = (family, iterations, size)",
+		Rule: "directed workload families aimed at the registry's two-step operations, each a loop of racing goroutines under -race: tag-flip (a tag moved back and forth between two manifests, the old one deleted each time, while 4 readers GetTag: never missing, never foreign bytes), commit-vs-write / resume-vs-write (one goroutine commits digest(X) while another writes to the same session: a successful commit stores exactly X with the right size, a failed one stores nothing), commit-vs-cancel / commit-vs-wrong-commit / commit-vs-write-commit (every commit that reports success leaves exactly its content retrievable under its digest; nothing is ever stored under the empty digest), stale-write-vs-status / good-write-vs-wrong-offset (a handle opened at a stale offset is refused, one opened at the right offset is accepted, whatever offsets other handles on the same session are opened at meanwhile), first-resume-race (goroutines opening the same fresh upload id at once share one session: no acknowledged write is lost), same-offset-race (of several handles opened at the same offset and writing at once exactly one is accepted), shared-handle-writes (goroutines writing at once through one handle opened at the right offset are all accepted), cancel-during-commit (a Cancel that returns nil while a Commit is in flight: if the commit succeeded the blob is there once the Cancel has returned), write-during-commit (a Write that succeeds while a Commit is in flight either makes the commit fail or finds the committed blob in place once it has returned), interleaved-chunks (over HTTP: a chunk request is served while another one's body is half delivered - the requests must take effect one after the other), concurrent-listings (over HTTP: 8 clients list tags, repositories and referrers of a registry nobody writes to - every answer is the one the request gets when asked alone), stalled-push (a PushBlob - direct or as one HTTP request - whose content source stalls: operations on another repository complete meanwhile), reentrant-listing (a consumer resolves each tag while it iterates over Tags inside an iteration over Repositories, and another goroutine pushes between two items: nothing waits for the iteration); distinct = (family, iterations, size)",
 		Run:  runDirected,
 	}
 }
@@ -787,9 +841,9 @@ func TestPropDirected(t *testing.T) {
 	vt.Enumerate(t, propDirected, false, func(yield func(Directed) bool) {
 		k := 0
 		for rep := 0; rep < 2; rep++ {
-			for _, f := range []string{"tag-flip", "commit-vs-write", "commit-vs-cancel", "resume-vs-write", "commit-vs-wrong-commit", "commit-vs-write-commit", "stale-write-vs-status", "good-write-vs-wrong-offset", "first-resume-race", "same-offset-race", "shared-handle-writes", "write-during-commit", "interleaved-chunks", "concurrent-listings", "stalled-push", "reentrant-listing"} {
+			for _, f := range []string{"tag-flip", "commit-vs-write", "commit-vs-cancel", "resume-vs-write", "commit-vs-wrong-commit", "commit-vs-write-commit", "stale-write-vs-status", "good-write-vs-wrong-offset", "first-resume-race", "same-offset-race", "shared-handle-writes", "cancel-during-commit", "write-during-commit", "interleaved-chunks", "concurrent-listings", "stalled-push", "reentrant-listing"} {
 				for _, size := range []int{4, 4096, 1 << 20} {
-					if (f == "tag-flip" || f == "first-resume-race") && size != 4 || (f == "interleaved-chunks" || f == "same-offset-race" || f == "shared-handle-writes" || f == "concurrent-listings" || f == "reentrant-listing") && size > 4096 || f == "write-during-commit" && size < 1<<20 {
+					if (f == "tag-flip" || f == "first-resume-race") && size != 4 || (f == "interleaved-chunks" || f == "same-offset-race" || f == "shared-handle-writes" || f == "cancel-during-commit" || f == "concurrent-listings" || f == "reentrant-listing") && size > 4096 || f == "write-during-commit" && size < 1<<20 {
 						continue
 					}
 					k++
